@@ -56,6 +56,8 @@ pub enum Case {
     Sender(PairScenario),
     /// like Sender, but the data link may lose / duplicate / reorder frames too
     SenderLossy(PairScenario),
+    /// real Client / Server with different max_receive_alloc settings, optionally a hostile raw peer
+    Endpoints(EpCase),
 }
 
 struct AckSink {
@@ -416,7 +418,7 @@ impl Check for C06 {
 
     fn strategy(&self, tier: Tier) -> BoxedStrategy<Case> {
         let p = GenParams { max_ticks: tier.pick(150, 400), max_sends: 10, max_frags: tier.pick(6, 20), tail: true, tight_alloc: true, modes: [1, 2, 2, 3], ..GenParams::default() };
-        prop_oneof![2 => rx_case(tier).prop_map(Case::Receiver), 1 => scenario_strategy(&p).prop_map(Case::Sender), 1 => scenario_strategy(&p).prop_map(Case::SenderLossy)].boxed()
+        prop_oneof![2 => rx_case(tier).prop_map(Case::Receiver), 1 => scenario_strategy(&p).prop_map(Case::Sender), 1 => scenario_strategy(&p).prop_map(Case::SenderLossy), 2 => ep_case(tier).prop_map(Case::Endpoints)].boxed()
     }
 
     fn cases(&self, tier: Tier) -> u64 {
@@ -432,7 +434,7 @@ impl Check for C06 {
     }
 
     fn rule(&self) -> String {
-        "two case kinds. Receiver: a lone receiving HalfConnection (limit 1 B .. 4 MB, windows 2^k) is fed hostile data-frame streams - datagrams with packet ids inside / at the edge of / outside the window, claimed fragment counts up to 65536, packets that never complete, arbitrary parent leads, frame ids spaced 1 / 33 / 64 / thousands apart (to defeat ack-group merging), floods of up to 6*10^3 (quick) or 4*10^5 (thorough) frames, sync frames, with receive() and step()+flush() called at generated points or never. Oracle after every op (every 64 frames inside a flood): live heap bytes of the case's thread minus the post-construction baseline <= max_receive_alloc rounded up to a fragment + 0.25% (reassembly bitmaps) + 160 KiB (bookkeeping bounded by protocol constants: a frame window's worth of ack groups). Sender: one-way SimPair transfer over a loss-free data link with lossy / delayed / duplicated acks and generated peer limits; from the wire alone, packets emitted beyond the newest packet-window base handed to the sender number <= window and sum (fragment-rounded) <= the peer's rounded limit; the receiver's allocation counter never exceeds its limit and, at quiescence, every non-TimeSensitive packet was delivered (none discarded for lack of memory) and neither side still counts any allocation; a lossy variant adds loss / duplication / reordering on the data link (partially received packets that the window passes) and owes every Reliable packet. Non-trivial = receiver: allocation counter came within one fragment of the limit or >= 10^4 frames were fed; sender: the sender was blocked by window or allocation at least once.".into()
+        "four case kinds. Endpoints: a real Client and Server with independently generated max_receive_alloc (1448 B .. 1 MB, multiples of the fragment size and their neighbours) and max_packet_size settings exchange bursts in both directions on loss-free links, either side sometimes not stepping; optionally a raw peer completes the handshake by hand advertising an allocation of its own choice and floods first fragments of packets that never complete. Oracle: the allocation each endpoint holds for received data never exceeds ITS OWN rounded max_receive_alloc whatever the peer advertised; from the wire, neither sender has more fragment-rounded bytes outstanding than the peer advertised; once both send buffers have drained every Reliable packet has been delivered (nothing discarded for lack of receive memory). Receiver: a lone receiving HalfConnection (limit 1 B .. 4 MB, windows 2^k) is fed hostile data-frame streams - datagrams with packet ids inside / at the edge of / outside the window, claimed fragment counts up to 65536, packets that never complete, arbitrary parent leads, frame ids spaced 1 / 33 / 64 / thousands apart (to defeat ack-group merging), floods of up to 6*10^3 (quick) or 4*10^5 (thorough) frames, sync frames, with receive() and step()+flush() called at generated points or never. Oracle after every op (every 64 frames inside a flood): live heap bytes of the case's thread minus the post-construction baseline <= max_receive_alloc rounded up to a fragment + 0.25% (reassembly bitmaps) + 160 KiB (bookkeeping bounded by protocol constants: a frame window's worth of ack groups). Sender: one-way SimPair transfer over a loss-free data link with lossy / delayed / duplicated acks and generated peer limits; from the wire alone, packets emitted beyond the newest packet-window base handed to the sender number <= window and sum (fragment-rounded) <= the peer's rounded limit; the receiver's allocation counter never exceeds its limit and, at quiescence, every non-TimeSensitive packet was delivered (none discarded for lack of memory) and neither side still counts any allocation; a lossy variant adds loss / duplication / reordering on the data link (partially received packets that the window passes) and owes every Reliable packet. Non-trivial = receiver: allocation counter came within one fragment of the limit or >= 10^4 frames were fed; sender: the sender was blocked by window or allocation at least once.".into()
     }
 
     fn assumptions(&self) -> Vec<String> {
@@ -451,6 +453,269 @@ impl Check for C06 {
             Case::Receiver(c) => run_receiver(c),
             Case::Sender(sc) => run_sender(sc, false),
             Case::SenderLossy(sc) => run_sender(sc, true),
+            Case::Endpoints(c) => run_endpoints(c),
         }
     }
+}
+
+// ---------------------------------------------------------------------------------------------------
+// Endpoints variant: a real Client and Server whose max_receive_alloc settings differ, plus (optionally)
+// a raw peer that completes the handshake by hand advertising an allocation of its own choice and then
+// floods first fragments of packets that never complete.
+// ---------------------------------------------------------------------------------------------------
+
+#[derive(Clone, Debug, Serialize, Deserialize)]
+pub enum EOp {
+    Tick { dt_us: u32, server: bool, client: bool },
+    Send { from_client: bool, mode: u8, ch: u8, size: u32, count: u8 },
+    /// the raw peer sends `count` data frames, each carrying fragment 0 of a new packet claiming `last`+1 fragments
+    Flood { last: u16, count: u16 },
+}
+
+#[derive(Clone, Debug, Serialize, Deserialize)]
+pub struct EpCase {
+    pub seed: u64,
+    pub server_alloc: u32,
+    pub client_alloc: u32,
+    pub server_pkt: u32,
+    pub client_pkt: u32,
+    /// what the raw peer advertises as its own max_receive_alloc (None = no raw peer)
+    pub hostile_alloc: Option<u32>,
+    pub latency_us: [u32; 2],
+    pub ops: Vec<EOp>,
+}
+
+fn ep_case(tier: Tier) -> BoxedStrategy<EpCase> {
+    let alloc = || prop_oneof![2 => (1u32..40).prop_map(|k| k * FRAG as u32), 2 => (1u32..40, 1u32..FRAG as u32).prop_map(|(k, d)| k * FRAG as u32 - d), 2 => 1_448u32..200_000, 1 => Just(1_000_000u32)];
+    let op = prop_oneof![
+        8 => (prop_oneof![Just(0u32), 1_000u32..30_000, 30_000u32..300_000], prop_oneof![5 => Just(true), 1 => Just(false)], prop_oneof![5 => Just(true), 1 => Just(false)]).prop_map(|(dt_us, server, client)| EOp::Tick { dt_us, server, client }),
+        4 => (any::<bool>(), prop_oneof![1 => 1u8..3, 2 => Just(3u8)], 0u8..3, prop_oneof![3 => 5u32..3000, 3 => 3000u32..60_000, 1 => Just(u32::MAX)], prop_oneof![3 => Just(1u8), 1 => 2u8..30]).prop_map(|(from_client, mode, ch, size, count)| EOp::Send { from_client, mode, ch, size, count }),
+        2 => (prop_oneof![Just(1u16), 1u16..200, Just(65535u16)], 1u16..300).prop_map(|(last, count)| EOp::Flood { last, count }),
+    ];
+    (
+        any::<u64>(),
+        (alloc(), alloc()),
+        (any::<u32>(), any::<u32>()),
+        proptest::option::weighted(0.5, prop_oneof![Just(u32::MAX), Just(1_000_000_000u32), 1_448u32..10_000_000]),
+        (prop_oneof![Just(0u32), 0u32..40_000], prop_oneof![Just(0u32), 0u32..40_000]),
+        proptest::collection::vec(op, 1..tier.pick(60, 200)),
+    )
+        .prop_map(|(seed, (server_alloc, client_alloc), (sp, cp), hostile_alloc, (l0, l1), ops)| {
+            // the handshake demands: each side's packets fit the other side's allocation
+            let server_pkt = 1 + sp % client_alloc.min(60_000);
+            let client_pkt = 1 + cp % server_alloc.min(60_000);
+            EpCase { seed, server_alloc, client_alloc, server_pkt, client_pkt, hostile_alloc, latency_us: [l0, l1], ops }
+        })
+        .boxed()
+}
+
+fn run_endpoints(c: &EpCase) -> CaseResult {
+    use crate::sim::world::*;
+    use uflow::verif::{DataFrame, Datagram, Frame, HandshakeAckFrame, HandshakeSynFrame};
+    let mut classes: Vec<&'static str> = Vec::new();
+    let scfg = ServerCfg { ep: EpCfg { max_receive_alloc: c.server_alloc, max_packet_size: c.server_pkt, ..EpCfg::default() }, ..ServerCfg::default() };
+    let ccfg = EpCfg { max_receive_alloc: c.client_alloc, max_packet_size: c.client_pkt, ..EpCfg::default() };
+    let mut w = World::new(c.seed, &scfg);
+    let ci = w.add_client(&ccfg, LinkState { latency_us: c.latency_us, ..LinkState::default() });
+    let caddr = w.clients[ci].addr;
+    let s_limit = ceil_frag(c.server_alloc as usize);
+    let c_limit = ceil_frag(c.client_alloc as usize);
+    let haddr = raw_addr(77);
+    let hostile_nonce = 0x0123_4567u32;
+    let mut hostile_up = false;
+    let mut hostile_frame = hostile_nonce;
+    let mut hostile_pkt = hostile_nonce & PKT_MASK;
+    let mut near_limit = false;
+    let mut sent: [Vec<(u32, u8, usize)>; 2] = [Vec::new(), Vec::new()]; // (idx, mode, size) per direction (0 = client -> server)
+
+    macro_rules! check_rx {
+        () => {
+            if let Some(server) = w.server.as_ref() {
+                for a in [caddr, haddr] {
+                    if let Some(rc) = server.client(&a) {
+                        if let Some(st) = rc.borrow().verif_stats() {
+                            if st.rx_alloc + FRAG > s_limit {
+                                near_limit = true;
+                            }
+                            if st.rx_alloc > s_limit {
+                                return CaseResult::fail(
+                                    "oracle:c06:endpoints:server_receive_allocation_exceeded",
+                                    format!("the server holds {} bytes of received packet data for {a} although its max_receive_alloc is {} (rounded {s_limit}); that peer advertised {:?}", st.rx_alloc, c.server_alloc, if a == caddr { Some(c.client_alloc) } else { c.hostile_alloc }),
+                                );
+                            }
+                        }
+                    }
+                }
+            }
+            if let Some(st) = w.clients[ci].client.as_ref().and_then(|cl| cl.verif_stats()) {
+                if st.rx_alloc + FRAG > c_limit {
+                    near_limit = true;
+                }
+                if st.rx_alloc > c_limit {
+                    return CaseResult::fail("oracle:c06:endpoints:client_receive_allocation_exceeded", format!("the client holds {} bytes of received packet data although its max_receive_alloc is {} (rounded {c_limit})", st.rx_alloc, c.client_alloc));
+                }
+            }
+        };
+    }
+
+    // connect (and let the raw peer shake hands by hand)
+    if let Some(ha) = c.hostile_alloc {
+        let f = Frame::HandshakeSynFrame(HandshakeSynFrame { version: 3, nonce: hostile_nonce, max_receive_rate: 10_000_000, max_packet_size: 1, max_receive_alloc: ha.max(c.server_pkt) });
+        w.send_raw(haddr, w.server_addr, &f.write(), 0);
+    }
+    for _ in 0..40 {
+        w.advance(20_000);
+        w.step_server();
+        w.step_client(ci);
+        if c.hostile_alloc.is_some() && !hostile_up {
+            if let Some(n) = w.wire.iter().rev().find_map(|r| if r.to == haddr { if let Some(Frame::HandshakeSynAckFrame(f)) = Frame::read(&r.bytes) { Some(f.nonce) } else { None } } else { None }) {
+                w.send_raw(haddr, w.server_addr, &Frame::HandshakeAckFrame(HandshakeAckFrame { nonce_ack: n }).write(), 0);
+                hostile_up = true;
+            }
+        }
+    }
+    let connected = w.clients[ci].events.iter().any(|e| matches!(e.2, CEv::Connect)) && w.server_client_active(&caddr);
+    if !connected {
+        // refused by the documented configuration rule or still shaking hands: nothing to check
+        return CaseResult::ok(false, classes);
+    }
+    if hostile_up && w.server_client_active(&haddr) {
+        classes.push("raw_peer_connected");
+    }
+
+    let mut idx = [0u32; 2];
+    for op in c.ops.iter() {
+        match op {
+            EOp::Tick { dt_us, server, client } => {
+                w.advance(*dt_us as u64);
+                if *server {
+                    w.step_server();
+                }
+                if *client {
+                    w.step_client(ci);
+                }
+                check_rx!();
+            }
+            EOp::Send { from_client, mode, ch, size, count } => {
+                let d = if *from_client { 0 } else { 1 };
+                let max = if *from_client { c.client_pkt } else { c.server_pkt } as usize;
+                let size = (*size as usize).min(max).max(5.min(max));
+                if size < 5 {
+                    continue;
+                }
+                for _ in 0..*count {
+                    let payload = world_payload(c.seed, d as u8 * 100, idx[d], size);
+                    if *from_client {
+                        w.client_send(ci, payload, *ch, *mode);
+                    } else if !w.server_send(ci, payload, *ch, *mode) {
+                        continue;
+                    }
+                    sent[d].push((idx[d], *mode % 4, size));
+                    idx[d] += 1;
+                }
+            }
+            EOp::Flood { last, count } => {
+                if !(hostile_up && w.server_client_active(&haddr)) {
+                    continue;
+                }
+                classes.push("raw_peer_flood");
+                for _ in 0..*count {
+                    let len = if *last == 0 { 100 } else { FRAG };
+                    let dg = Datagram { sequence_id: hostile_pkt, channel_id: 0, window_parent_lead: 0, channel_parent_lead: 0, fragment_id: 0, fragment_id_last: *last, data: vec![0x42u8; len].into_boxed_slice() };
+                    let f = Frame::DataFrame(DataFrame { sequence_id: hostile_frame, nonce: false, datagrams: vec![dg] });
+                    hostile_frame = hostile_frame.wrapping_add(1);
+                    hostile_pkt = (hostile_pkt + 1) & PKT_MASK;
+                    w.send_raw(haddr, w.server_addr, &f.write(), 0);
+                }
+                w.step_server();
+                check_rx!();
+            }
+        }
+    }
+    // settle on the (loss-free) links until both send buffers are empty
+    let mut waited = 0u64;
+    loop {
+        let c_empty = w.clients[ci].client.as_ref().map_or(true, |cl| cl.send_buffer_size() == 0);
+        let s_empty = w.server.as_ref().and_then(|s| s.client(&caddr).map(|rc| rc.borrow().send_buffer_size() == 0)).unwrap_or(true);
+        if (c_empty && s_empty && waited > 1_000_000) || waited > 1_800_000_000 {
+            break;
+        }
+        let dt = if waited < 10_000_000 { 10_000 } else { 100_000 };
+        w.advance(dt);
+        waited += dt;
+        w.step_server();
+        w.step_client(ci);
+        check_rx!();
+        if !w.server_client_active(&caddr) {
+            break;
+        }
+    }
+    let alive = w.server_client_active(&caddr) && w.clients[ci].client.as_ref().map_or(false, |cl| cl.is_active());
+    // senders respect the limit their peer advertised (judged from the wire) ...
+    for d in 0..2 {
+        let (from, to, limit, nonce) = if d == 0 {
+            (caddr, w.server_addr, s_limit as u64, w.wire.iter().find_map(|r| if r.from == caddr { if let Some(Frame::HandshakeSynFrame(f)) = Frame::read(&r.bytes) { Some(f.nonce) } else { None } } else { None }))
+        } else {
+            (w.server_addr, caddr, c_limit as u64, w.wire.iter().rev().find_map(|r| if r.to == caddr { if let Some(Frame::HandshakeSynAckFrame(f)) = Frame::read(&r.bytes) { Some(f.nonce) } else { None } } else { None }))
+        };
+        let Some(nonce) = nonce else { continue };
+        let mut tr = crate::sim::wiremodel::OutstandingTracker::new(nonce);
+        let mut evs: Vec<(u64, bool, usize)> = Vec::new();
+        for (i, r) in w.wire.iter().enumerate() {
+            if r.from == from && r.to == to && r.bytes.first() == Some(&10) {
+                evs.push((r.seq, true, i));
+            }
+        }
+        for (i, dl) in w.delivered.iter().enumerate() {
+            if dl.from == to && dl.to == from && dl.bytes.first() == Some(&12) {
+                evs.push((dl.seq, false, i));
+            }
+        }
+        evs.sort();
+        for (_, is_data, i) in evs {
+            if is_data {
+                if let Some(Frame::DataFrame(df)) = Frame::read(&w.wire[i].bytes) {
+                    for dg in df.datagrams.iter() {
+                        let (count, total) = tr.on_datagram(dg.sequence_id, dg.fragment_id_last, dg.data.len() as u32);
+                        if total > limit || count > 4096 {
+                            return CaseResult::fail(
+                                "oracle:c06:endpoints:sender_exceeds_peer_allocation",
+                                format!("{} has {total} fragment-rounded bytes in {count} packets outstanding although its peer advertised max_receive_alloc = {} (rounded {limit})", if d == 0 { "the client" } else { "the server" }, if d == 0 { c.server_alloc } else { c.client_alloc }),
+                            );
+                        }
+                    }
+                }
+            } else if let Some(Frame::AckFrame(af)) = Frame::read(&w.delivered[i].bytes) {
+                tr.on_ack_base(af.packet_window_base_id);
+            }
+        }
+    }
+    // ... and therefore nothing is ever discarded for lack of receive memory: every Reliable packet arrives
+    if alive && waited <= 1_800_000_000 {
+        for d in 0..2 {
+            let got: std::collections::HashSet<u32> = if d == 0 {
+                w.server_events.iter().filter_map(|(_, _, e)| if let SEv::Receive(a, data) = e { if *a == caddr { parse_world_payload(data).filter(|p| p.0 == 0).map(|p| p.1) } else { None } } else { None }).collect()
+            } else {
+                w.clients[ci].events.iter().filter_map(|(_, _, e)| if let CEv::Receive(data) = e { parse_world_payload(data).filter(|p| p.0 == 100).map(|p| p.1) } else { None }).collect()
+            };
+            for (i, mode, size) in sent[d].iter() {
+                if *mode == 3 && !got.contains(i) {
+                    return CaseResult::fail(
+                        "oracle:c06:endpoints:reliable_packet_discarded",
+                        format!("{} sent Reliable packet #{i} ({size} bytes, within the limits both sides advertised: server alloc {} / packet {}, client alloc {} / packet {}); both send buffers drained on a loss-free link but the packet was never delivered", if d == 0 { "the client" } else { "the server" }, c.server_alloc, c.server_pkt, c.client_alloc, c.client_pkt),
+                    );
+                }
+            }
+        }
+        classes.push("endpoints_drained");
+    }
+    if c.server_alloc != c.client_alloc {
+        classes.push("endpoints_asymmetric_limits");
+    }
+    let bulk = sent.iter().any(|v| v.iter().map(|s| s.2).sum::<usize>() > s_limit.min(c_limit));
+    if bulk {
+        classes.push("endpoints_sent_more_than_one_allocation");
+    }
+    classes.push("endpoints");
+    CaseResult::ok(near_limit || bulk, classes)
 }
